@@ -22,7 +22,7 @@ import fwdcluster as fc
 from vbuild import VERIF, InfraError
 
 INVS = ("TypeOK OneReplyRightConn RelayedIsLeaderReply NoFabricatedSuccess RefusedNotExecuted AnsweredUnlessOrphan OrphansOnlyByDeviation OrphansAreBinary "
-        "FastPathAgreesWithLeader ReplyOfThatVeryRequest NoticeIsOfExpiredGrant NoticesRelayedToBinary LockWaiterEmpty")
+        "FastPathAgreesWithLeader ReplyOfThatVeryRequest NoticeIsOfExpiredGrant NoticesRelayedToBinary LockWaiterEmpty AckedWriteReachedLeader ReadsDecideNothing")
 ALLOPS = '"lock0", "lockw", "lockr", "lockc", "lockcw", "unlock"'
 
 MC = '''SPECIFICATION Spec
@@ -39,6 +39,7 @@ CONSTANTS
   FirstTextLocal = %(ftl)s
   FastPathOr = %(fpor)s
   ResetAfterRelay = %(reset)s
+  MisfiledOps = {%(misfiled)s}
   AllowDemote = %(demote)s
   RecordHist = %(hist)s
 INVARIANTS %(invs)s
@@ -47,7 +48,7 @@ CHECK_DEADLOCK FALSE
 '''
 
 def mc_cfg(**kw):
-    d = dict(bin='"b1"', text='"t1"', dir='"d1"', lids="1, 2", ops='"lock0", "lockw", "unlock"', maxreq=3, faults=1, expire=0, rlo="TRUE", ftl="TRUE", fpor="FALSE", reset="TRUE",
+    d = dict(bin='"b1"', text='"t1"', dir='"d1"', lids="1, 2", ops='"lock0", "lockw", "unlock"', maxreq=3, faults=1, expire=0, rlo="TRUE", ftl="TRUE", fpor="FALSE", reset="TRUE", misfiled="",
              demote="FALSE", hist="FALSE", invs=INVS, props="PROPERTY NonLeaderEngineUntouched")
     d.update(kw)
     return MC % d
@@ -61,7 +62,9 @@ def exhaustive(tier, wd, res):
             #  deviations and the 3 M / 10 M state configurations are in the thorough tier)
             runs = [("three-requests", mc_cfg(ops='"lockw", "unlock"', dir="")),
                     ("all-ops-one-fault-demote", mc_cfg(ops=ALLOPS, maxreq=2, faults=1, demote="TRUE")),
-                    ("three-requests-one-expiry", mc_cfg(ops='"lockr", "lockw", "unlock"', dir="", faults=0, expire=1))]
+                    ("three-requests-one-expiry", mc_cfg(ops='"lockr", "lockw", "unlock"', dir="", faults=0, expire=1)),
+                    ("value-commands-one-fault-demote", mc_cfg(ops='"wset", "rget", "lock0", "unlock"', maxreq=2, faults=1, demote="TRUE")),
+                    ("value-commands-three-requests", mc_cfg(ops='"wset", "rget", "lock0"', dir="", lids="1", faults=0))]
         else:
             runs = [("three-requests", mc_cfg()),
                     ("all-ops-two-faults-demote", mc_cfg(ops=ALLOPS, maxreq=2, faults=2, demote="TRUE")),
@@ -71,7 +74,35 @@ def exhaustive(tier, wd, res):
                     ("three-requests-one-expiry", mc_cfg(ops='"lockr", "lockw", "unlock"', dir="", faults=0, expire=1)),
                     ("three-requests-two-expiries", mc_cfg(dir="", faults=0, expire=2)),
                     ("all-ops-one-fault-one-expiry-demote", mc_cfg(ops=ALLOPS, maxreq=2, faults=1, expire=1, demote="TRUE")),
-                    ("three-requests-one-fault-one-expiry", mc_cfg(dir="", faults=1, expire=1))]
+                    ("three-requests-one-fault-one-expiry", mc_cfg(dir="", faults=1, expire=1)),
+                    ("value-commands-one-fault-demote", mc_cfg(ops='"wset", "rget", "lock0", "unlock"', maxreq=2, faults=1, demote="TRUE")),
+                    ("value-commands-three-requests-one-fault", mc_cfg(ops='"wset", "rget", "lock0", "unlock"', dir="", faults=1)),
+                    ("value-commands-one-expiry", mc_cfg(ops='"wset", "rget", "lockw"', dir="", faults=0, expire=1))]
+        # the refutations of the named deviations / mutations (small, two workers each) run beside the exhaustive configurations
+        refuted, rerr = {}, []
+        def refutations():
+            try:
+                specd = os.path.join(VERIF, "spec")
+                for key, cfg, inv in [
+                        # the named deviation is real in the model: with the code's rollback rule a request can stay unanswered
+                        ("orphan_counterexample", mc_cfg(maxreq=2, faults=1, invs="NoOrphan", props=""), "NoOrphan"),
+                        # the fast-path guard written with OR (a no-wait lock of the holder answered by the follower)
+                        ("fastpath_or_counterexample", mc_cfg(ops='"lockr", "unlock"', maxreq=2, faults=0, fpor="TRUE", invs="FastPathAgreesWithLeader", props=""),
+                         "FastPathAgreesWithLeader"),
+                        # lockRequestId not reset after a frame was handed to lockWaiter (seed C10d): the expiry notice is taken as the
+                        # answer of the next request of the text connection
+                        ("noreset_counterexample", mc_cfg(ops='"lock0", "unlock"', bin="", dir="", maxreq=2, faults=0, expire=1, reset="FALSE",
+                                                          invs="ReplyOfThatVeryRequest", props=""), "ReplyOfThatVeryRequest"),
+                        # a write key command registered with the local read handler of the non-leader's text table (seed C10e): the
+                        # client holds an answer for a write no deciding engine ever saw
+                        ("misfiled_counterexample", mc_cfg(ops='"wset", "rget"', bin="", dir="", maxreq=2, faults=0, misfiled='"wset"',
+                                                           invs="AckedWriteReachedLeader", props=""), "AckedWriteReachedLeader")]:
+                    r = vtlc.run_tlc(specd, "Forward", cfg, os.path.join(wd, "mc_" + key), workers=2, timeout=300, heap="1g")
+                    refuted[key] = ("Invariant %s is violated" % inv) in r["out"]
+            except Exception as ex:
+                rerr.append(ex)
+        thr = threading.Thread(target=refutations)
+        thr.start()
         out = []
         for name, cfg in runs:
             r = vtlc.run_tlc(os.path.join(VERIF, "spec"), "Forward", cfg, os.path.join(wd, "mc_" + name), workers=max(2, engine.NCPU - 2),
@@ -80,20 +111,10 @@ def exhaustive(tier, wd, res):
             if st is None or "No error has been found" not in r["out"]:
                 raise InfraError(f"Forward.tla exhaustive check '{name}' did not complete cleanly:\n" + r["out"][-3000:])
             out.append({"config": name, "states": st["distinct"], "transitions": st["generated"], "wall_s": round(r["wall"], 1)})
-        # the named deviation is real in the model: with the code's rollback rule a request can stay unanswered
-        r = vtlc.run_tlc(os.path.join(VERIF, "spec"), "Forward", mc_cfg(maxreq=2, faults=1, invs="NoOrphan", props=""), os.path.join(wd, "mc_orphan"),
-                         workers=2, timeout=300, heap="1g")
-        res["orphan_counterexample"] = "Invariant NoOrphan is violated" in r["out"]
-        # the fast-path guard written with OR (a no-wait lock of the holder answered by the follower) is refuted by the model
-        r = vtlc.run_tlc(os.path.join(VERIF, "spec"), "Forward", mc_cfg(ops='"lockr", "unlock"', maxreq=2, faults=0, fpor="TRUE", invs="FastPathAgreesWithLeader", props=""),
-                         os.path.join(wd, "mc_fastpath_or"), workers=2, timeout=300, heap="1g")
-        res["fastpath_or_counterexample"] = "Invariant FastPathAgreesWithLeader is violated" in r["out"]
-        # lockRequestId not reset after a frame was handed to lockWaiter (seed C10d): the expiry notice is taken as the answer of
-        # the next request of the text connection
-        r = vtlc.run_tlc(os.path.join(VERIF, "spec"), "Forward", mc_cfg(ops='"lock0", "unlock"', bin="", dir="", maxreq=2, faults=0, expire=1, reset="FALSE",
-                                                                       invs="ReplyOfThatVeryRequest", props=""),
-                         os.path.join(wd, "mc_noreset"), workers=2, timeout=300, heap="1g")
-        res["noreset_counterexample"] = "Invariant ReplyOfThatVeryRequest is violated" in r["out"]
+        thr.join()
+        if rerr:
+            raise rerr[0]
+        res.update(refuted)
         res["runs"] = out
     except Exception as ex:
         res["error"] = ex
@@ -234,6 +255,36 @@ class IdMap:
 def payload(hexdata):
     return hexdata[4:] if hexdata else ""
 
+# wire form of the text key commands (protocol/textcommand.go): frame type, flag, LockId = key?
+V_WIRE = {}
+for _n in ("SET", "GETSET", "APPEND", "INCR", "INCRBY", "DECR", "DECRBY", "SETEX", "PSETEX"):
+    V_WIRE[_n] = (1, 0x22, True)
+V_WIRE["SETNX"] = (1, 0x20, False)
+for _n in ("EXPIRE", "PEXPIRE", "EXPIREAT", "PEXPIREAT", "PERSIST"):
+    V_WIRE[_n] = (1, 0x02, True)
+V_WIRE["DEL"] = (2, 0x01, True)
+for _n in ("GET", "STRLEN", "EXISTS", "TYPE", "DUMP"):
+    V_WIRE[_n] = (1, 0x01, True)
+# command code of spec/RedisCmds.tla for the form that was sent ("" = outside that store: not judged against it)
+KV_CODES = {"SET", "SETNX", "SETEX", "PSETEX", "GETSET", "APPEND", "INCR", "INCRBY", "DECR", "DECRBY", "EXPIRE", "PEXPIRE", "EXPIREAT", "PEXPIREAT",
+            "PERSIST", "DEL", "GET", "STRLEN", "EXISTS"}
+
+def wire_of(e):
+    """(frame type, LockId or 0 = any, flag or None) a text request would be forwarded with; None: never linked."""
+    c = e["cmd"]
+    if c in ("L", "U"):
+        return (1 if c == "L" else 2, e["lid"], None)
+    if c == "P":
+        return (1, e["lid"], None)
+    if c == "S":
+        return (1, e["key"], None)
+    if c == "D":
+        return (2, e["key"], None)
+    if c == "V" and e.get("name") in V_WIRE:
+        ct, flag, own = V_WIRE[e["name"]]
+        return (ct, e["key"] if own else 0, flag)
+    return None
+
 def same_terms(e, x):
     """Is the forwarded frame x (seen by the proxy) the frame of text request e?  Two text connections of one node may send
     requests with one key and LockId at the same time: the flag, the times and the counts tell them apart."""
@@ -243,6 +294,9 @@ def same_terms(e, x):
         return (x["flag"] & 0xdf) == (e["flag"] & 0xdf) and (x["to"], x["tf"], x["ex"], x["ef"], x["cnt"], x["rc"]) == (e["to"], e["tf"], e["ex"], e["ef"], e["cnt"], e["rc"])
     if e["cmd"] == "U":
         return (x["flag"] & 0xdf) == (e["flag"] & 0xdf) and x["rc"] == e["rc"]
+    if e["cmd"] == "V":
+        w = wire_of(e)
+        return w is not None and x["flag"] == w[2]
     return True
 
 def normalise(events, ids, vkeys):
@@ -282,10 +336,25 @@ def normalise(events, ids, vkeys):
             e["exlo"] = e["exhi"] = ex * 60
         else:
             e["exlo"] = e["exhi"] = ex
-        if e["cmd"] == "G":
+        # value commands: the bytes of the value argument, the command of spec/RedisCmds.tla and its number
+        e.setdefault("name", ""); e.setdefault("num", 0)
+        e["valb"] = list(str(e.get("val", "")).encode())
+        c = e["cmd"]
+        if c == "S":
+            ms = bool(ef & 0x0400)
+            e["kc"] = "SET" if not ex else (("PSETEX" if ms else "SETEX") if e.get("form") == "setex" else ("SET_PX" if ms else "SET_EX"))
+            e["kd"] = ex
+        elif c in ("G", "D"):
+            e["kc"], e["kd"] = ("GET" if c == "G" else "DEL"), 0
+        elif c == "V":
+            e["kc"], e["kd"] = (e["name"] if e["name"] in KV_CODES else ""), e["num"]
+        else:
+            e["kc"], e["kd"] = "", 0
+        e.pop("form", None)
+        w = wire_of(e)
+        if w is None:
             continue
-        ct = 1 if e["cmd"] in ("L", "S") else 2
-        lid = e["lid"] if e["cmd"] in ("L", "U") else e["key"]
+        ct, lid = w[0], w[1]
         for j in range(i + 1, len(out)):
             x = out[j]
             if x["e"] == "reply" and x["rid"] == e["id"]:
@@ -301,9 +370,8 @@ def normalise(events, ids, vkeys):
     # for the leader: the monitor will have to say why): the frame is still this request's when no other request was issued
     # in between
     for i, e in enumerate(out):
-        if e["e"] == "req" and e["proto"] == "text" and e["uprid"] == 0 and e["cmd"] != "G" and e["id"] in replied_at:
-            ct = 1 if e["cmd"] in ("L", "S") else 2
-            lid = e["lid"] if e["cmd"] in ("L", "U") else e["key"]
+        if e["e"] == "req" and e["proto"] == "text" and e["uprid"] == 0 and wire_of(e) is not None and e["id"] in replied_at:
+            ct, lid = wire_of(e)[0], wire_of(e)[1]
             for j in range(replied_at[e["id"]] + 1, len(out)):
                 x = out[j]
                 if x["e"] in ("req", "end"):
@@ -315,9 +383,15 @@ def normalise(events, ids, vkeys):
         if e["e"] == "reply":
             e["datap"] = e["data"] if "err" in e else payload(e["data"])      # text replies carry the payload only
             e.setdefault("val", ""); e.setdefault("nil", False); e.setdefault("err", "")
+            e.setdefault("rk", "other"); e.setdefault("ri", 0); e.setdefault("rsb", [])
             e.pop("raw", None)
         elif e["e"] == "up_reply":
             e["datap"] = payload(e["data"])
+            for f, dv in (("dkind", "none"), ("dvb", []), ("dnum", 0), ("dlen", 0), ("dempty", True)):
+                e.setdefault(f, dv)
+        elif e["e"] == "vals":
+            for x in e["vals"]:
+                x.setdefault("rk", "nil" if x.get("nil") else "bulk"); x.setdefault("ri", 0); x.setdefault("rsb", list(str(x.get("val", "")).encode()))
         elif e["e"] == "begin":
             e["vkeys"] = list(vkeys)
     return out
@@ -397,15 +471,60 @@ def corrupt_binary_notice(events):
                          f"for request {owner[0]['id']} removed"), "notice-not-relayed"
     return None
 
+READS = ("G", "C")
+def is_read(q):
+    return q["cmd"] in READS or (q["cmd"] == "V" and q.get("name") in gen_fwd.READ_CMDS)
+
+def corrupt_write_answered_locally(events):
+    """A write key command (GETSET first of all) that a follower FORWARDED loses its upstream frames in the trace, as if the node had
+    answered it from its replica: the monitor must say non-leader-answered-on-its-own."""
+    evs = [dict(e) for e in events]
+    cands = [e for e in evs if e["e"] == "req" and e["cmd"] == "V" and e["name"] in gen_fwd.WRITE_CMDS and e["role"] == "follower" and e["uprid"] and not e["first"]]
+    cands.sort(key=lambda e: (e["name"] != "GETSET", e["id"]))
+    for q in cands:
+        rep_ = [r for r in evs if r["e"] == "reply" and r["rid"] == q["id"]]
+        if not rep_ or rep_[0]["res"] not in (0, 8):
+            continue
+        up = q["uprid"]
+        evs = [e for e in evs if not (e["e"] in ("up_req", "up_reply") and e["rid"] == up)]
+        q["uprid"] = 0
+        return evs, (f"the upstream frames of text request {q['id']} ({q['name']} through follower {q['node']}, answered {rep_[0]['rk']}) removed: "
+                     "the answer stands without a request to the leader"), "non-leader-answered-on-its-own"
+    return None
+
+def corrupt_leader_value(events):
+    """The value the LEADER reports after a write command that went through a follower is replaced by another one: the monitor must
+    say get-differs-from-last-acknowledged-set (the leader's values follow the sequential key-value store)."""
+    evs = [dict(e) for e in events]
+    reqs = {e["id"]: e for e in evs if e["e"] == "req"}
+    wrote = set()
+    for e in evs:
+        if e["e"] == "reply" and e["rid"] in reqs:
+            q = reqs[e["rid"]]
+            if q["cmd"] == "V" and q["name"] in ("GETSET", "APPEND", "SET") and q["role"] == "follower" and q["uprid"] and e["res"] == 0:
+                wrote.add(q["key"])
+            elif q["cmd"] == "G" and q["where"] == "L" and q["key"] in wrote and e["rk"] == "bulk":
+                e["rsb"] = list(b"not-the-value"); e["val"] = "not-the-value"
+                return evs, f"the value the leader answered to GET request {q['id']} (key {q['key']}, after a write through a follower) replaced", "get-differs-from-last-acknowledged-set"
+    return None
+
 # ------------------------------------------------------------------------------------------- monitor run
 
 def fstats(files, props, wd, timeout=900):
     """One TLC run per trace file; returns (viols, monitor stats, judged-keys statistics)."""
     import concurrent.futures as cf
+    # the monitor and the module it instantiates (the key-value store of the text commands: spec/RedisCmds.tla)
+    import shutil
+    specs = os.path.join(wd, "specs")
+    os.makedirs(specs, exist_ok=True)
+    for f in os.listdir(os.path.join(VERIF, "spec", "mon")):
+        if f.endswith(".tla"):
+            shutil.copy(os.path.join(VERIF, "spec", "mon", f), specs)
+    shutil.copy(os.path.join(VERIF, "spec", "RedisCmds.tla"), specs)
     def one(arg):
         i, tr = arg
         cfg = engine.MON_CFG % {"trace": tr, "props": ", ".join('"%s"' % p for p in props)}
-        return tr, vtlc.run_tlc([os.path.join(VERIF, "spec", "mon")], "MonForward", cfg, os.path.join(wd, f"tlc_{i}"), workers=1, timeout=timeout)
+        return tr, vtlc.run_tlc([specs], "MonForward", cfg, os.path.join(wd, f"tlc_{i}"), workers=1, timeout=timeout)
     viols, nstates, nev, keys, tainted = [], 0, 0, 0, 0
     with cf.ThreadPoolExecutor(max_workers=max(1, min(engine.NCPU, len(files)))) as ex:
         for tr, r in ex.map(one, list(enumerate(files))):
@@ -447,6 +566,7 @@ def run_part(out, tier, seed, wd):
     nrnd = 70 if quick else 900
     nxbeh = 8 if quick else 120        # expiry histories (real time: each costs 0.3 - 3 s; they run on followers of their own)
     nxrnd = 16 if quick else 300
+    nvrnd = 20 if quick else 300       # histories over the whole text command table
     laps = {}
     # (1) exhaustive design check, beside everything else
     mcres = {}
@@ -508,6 +628,13 @@ def run_part(out, tier, seed, wd):
             xseqs.append(gen_fwd.gen_expiry(seed, idx, xkb())); idx += 1; xi += 1
         # (directed ones spread over the expiry workers, first)
         xseqs = xdir + xseqs
+        # the text key commands: every registered command through a non-leader (key ranges of their own, 64 keys each)
+        vdir = gen_fwd.directed_values(seed, idx, 900000, 64)
+        idx += len(vdir)
+        vseqs = list(vdir)
+        for i in range(nvrnd):
+            vseqs.append(gen_fwd.gen_values(seed, idx, 900000 + (len(vdir) + i) * 64)); idx += 1
+        seqs += vseqs
         traces = {}        # worker -> list of (sequence, normalised events)
         errors = []
         ids = IdMap()
@@ -609,14 +736,16 @@ def run_part(out, tier, seed, wd):
             break
     if stest["rejected"] is not True:
         raise InfraError("forwarding self-test failed: " + ("no relayed refusal found to corrupt" if stest["corruption"] is None else "corrupted trace accepted"))
-    # the clauses about unsolicited frames: two corruptions of accepted expiry histories
+    # the clauses about unsolicited frames and about the text key commands: corruptions of accepted expiry / value histories
     clean = {n for n in allseq if not any(v.get("name") == n for v in viols)}
     stest["unsolicited_frames"] = []
-    for fn in (corrupt_text_notice, corrupt_binary_notice):
+    # (the corrupted traces are validated side by side)
+    jobs = []
+    for fn in (corrupt_text_notice, corrupt_binary_notice, corrupt_write_answered_locally, corrupt_leader_value):
         done = False
         for name in sorted(clean):
             sc, evs = allseq[name]
-            if sc.get("kind") != "exp":
+            if sc.get("kind") != ("exp" if "notice" in fn.__name__ else "val"):
                 continue
             c = fn(evs)
             if c:
@@ -624,18 +753,22 @@ def run_part(out, tier, seed, wd):
                 with open(pth, "w") as fh:
                     for e in c[0]:
                         fh.write(json.dumps(e) + "\n")
-                v2, _, _ = fstats([pth], ["C10"], os.path.join(wd, "selftest_" + fn.__name__))
-                codes = sorted({v["code"] for v in v2})
-                stest["unsolicited_frames"].append({"corruption": f"{name}: " + c[1], "expected": c[2], "rejected": c[2] in codes, "codes": codes})
-                if c[2] not in codes:
-                    raise InfraError(f"forwarding self-test failed: {c[1]} - the monitor said {codes}, not {c[2]}")
+                jobs.append((fn.__name__, name, c, pth))
                 done = True
                 break
         if not done:
             # (every candidate history is among the rejected ones: the verdict stands, the demonstration has nothing to start from)
             if nviol == 0:
-                raise InfraError("forwarding self-test failed: no accepted expiry history to corrupt with " + fn.__name__)
-            stest["unsolicited_frames"].append({"corruption": None, "expected": None, "rejected": None, "skipped": "no accepted expiry history left to corrupt (" + fn.__name__ + ")"})
+                raise InfraError("forwarding self-test failed: no accepted history to corrupt with " + fn.__name__)
+            stest["unsolicited_frames"].append({"corruption": None, "expected": None, "rejected": None, "skipped": "no accepted history left to corrupt (" + fn.__name__ + ")"})
+    import concurrent.futures as cf
+    with cf.ThreadPoolExecutor(max_workers=max(1, len(jobs))) as ex:
+        outs = list(ex.map(lambda j: fstats([j[3]], ["C10"], os.path.join(wd, "selftest_" + j[0])), jobs))
+    for (fname, name, c, pth), (v2, _, _) in zip(jobs, outs):
+        codes = sorted({v["code"] for v in v2})
+        stest["unsolicited_frames"].append({"corruption": f"{name}: " + c[1], "expected": c[2], "rejected": c[2] in codes, "codes": codes})
+        if c[2] not in codes:
+            raise InfraError(f"forwarding self-test failed: {c[1]} - the monitor said {codes}, not {c[2]}")
     th.join()
     if "error" in mcres:
         ex = mcres["error"]
@@ -650,10 +783,27 @@ def run_part(out, tier, seed, wd):
           "value_commands_with_expiry": 0, "expiry_notices_on_upstream_links": 0, "notices_for_text_connections": 0, "notices_for_binary_connections": 0,
           "notices_relayed_to_binary_clients": 0, "notices_to_binary_clients_of_the_leader": 0,
           "text_requests_relayed_after_a_notice_on_their_connection": 0, "binary_requests_relayed_after_a_notice_on_their_connection": 0,
-          "notice_waits": 0, "notice_waits_satisfied": 0}
+          "notice_waits": 0, "notice_waits_satisfied": 0,
+          # the text key commands
+          "value_histories": 0, "key_commands_through_a_non_leader": {}, "write_commands_forwarded_as_non_first_command": 0,
+          "read_commands_answered_by_a_non_leader": 0, "reads_on_the_leader_after_a_write_through_a_non_leader": 0, "push_through_a_non_leader": 0}
     for name, (sc, evs) in allseq.items():
         reqs = {e["id"]: e for e in evs if e["e"] == "req"}
         upr = {e["rid"] for e in evs if e["e"] == "up_reply"}
+        st["value_histories"] += sc.get("kind") == "val"
+        wrote_via = set()
+        for e in evs:
+            if e["e"] == "req" and e["cmd"] in ("V", "P", "S", "G", "D", "C") and e["role"] in ("follower", "config") and e["proto"] == "text":
+                nm = e["name"] or {"S": "SET", "G": "GET", "D": "DEL", "P": "PUSH"}.get(e["cmd"], e["cmd"])
+                c = st["key_commands_through_a_non_leader"].setdefault(nm, {"sent": 0, "forwarded": 0, "first_of_connection": 0})
+                c["sent"] += 1; c["forwarded"] += bool(e["uprid"]); c["first_of_connection"] += bool(e["first"])
+                if e["uprid"] and not e["first"] and not is_read(e):
+                    st["write_commands_forwarded_as_non_first_command"] += 1
+                    wrote_via.add(e["key"])
+                st["read_commands_answered_by_a_non_leader"] += is_read(e) and e["cmd"] != "C"
+                st["push_through_a_non_leader"] += e["cmd"] == "P"
+            elif e["e"] == "req" and e["where"] == "L" and is_read(e) and e["key"] in wrote_via:
+                st["reads_on_the_leader_after_a_write_through_a_non_leader"] += 1
         if sc.get("kind") == "exp":
             st["expiry_histories"] += 1
             st["expiry_histories_from_model_behaviours"] += sc.get("src") == "tlc"
@@ -706,7 +856,7 @@ def run_part(out, tier, seed, wd):
                     st["via_follower"] += 1
             elif t == "reply" and e["rid"] in reqs:
                 q = reqs[e["rid"]]
-                if q["role"] in ("follower", "config") and q["cmd"] != "G":
+                if q["role"] in ("follower", "config") and not is_read(q):
                     if q["uprid"] in upr and e["res"] not in (11,):
                         st["relayed"] += 1
                     elif e["res"] == 8 and q["flag"] & 8:
@@ -733,6 +883,11 @@ def run_part(out, tier, seed, wd):
     if st["text_requests_relayed_after_a_notice_on_their_connection"] < 5 or st["notices_relayed_to_binary_clients"] < 3:
         raise InfraError("forwarding engine exercised too little of the expiry histories (%d text requests relayed after a notice, %d notices relayed to binary clients)"
                          % (st["text_requests_relayed_after_a_notice_on_their_connection"], st["notices_relayed_to_binary_clients"]))
+    missing = [n for n in gen_fwd.WRITE_CMDS + gen_fwd.READ_CMDS + ["PUSH"] if st["key_commands_through_a_non_leader"].get(n, {}).get("sent", 0) -
+               st["key_commands_through_a_non_leader"].get(n, {}).get("first_of_connection", 0) < 1]
+    if missing:
+        raise InfraError("forwarding engine: text commands never sent through a non-leader as a non-first command: %s" % missing)
+    st["distinct_key_commands_through_a_non_leader"] = len(st["key_commands_through_a_non_leader"])
     if st["relayed"] < 50 or st["snapshots_compared"] < 10:
         raise InfraError(f"forwarding engine exercised too little ({st['relayed']} relayed replies, {st['snapshots_compared']} follower snapshots)")
     sample_sc = next(sc for sc, _ in traces["F1"] if sc.get("src") == "tlc")
@@ -744,9 +899,13 @@ def run_part(out, tier, seed, wd):
                      "unsolicited_frames": "LeaderExpire: the deciding engine pushes an EXPRIED frame with the id of the request whose command the hold keeps down that request's route; "
                                            "exactly one leader frame is the answer of a request; without the reset of lockRequestId the notice is taken as the answer of the next "
                                            "text request - refuted by TLC (ReplyOfThatVeryRequest): %s" % mcres.get("noreset_counterexample"),
+                     "key_command_classes": "WriteOps / ReadOps of the model (does the request change engine state on a leader?): a non-leader's text table answers read-class commands from "
+                                            "its replica and refuses or forwards write-class ones; a write command registered with the local read handler (MisfiledOps) is refuted by TLC "
+                                            "(AckedWriteReachedLeader): %s" % mcres.get("misfiled_counterexample"),
                      "fastpath_guard": "follower answers locally only for concurrent-check flag AND Timeout 0 AND key full in its replica; the OR variant is refuted: %s" % mcres.get("fastpath_or_counterexample")},
            "behaviours_generated": nraw, "expiry_behaviours_generated": xres["raw"], "behaviours_replayed": sum(1 for sc, _ in allseq.values() if sc.get("src") == "tlc"),
            "seeded_histories": sum(1 for sc, _ in allseq.values() if sc.get("src") == "seeded"),
+           "seeded_value_histories": sum(1 for sc, _ in allseq.values() if sc.get("src") == "seeded-values"),
            "seeded_expiry_histories": sum(1 for sc, _ in allseq.values() if sc.get("src") == "seeded-expiry"),
            "directed_histories": sorted(n for n, (sc, _) in allseq.items() if sc.get("src") == "directed"),
            "traces_validated_against_impl": len(allseq), "engine": st, "monitor": dict(mst, **judged), "violations": nviol,
